@@ -67,6 +67,77 @@ def live(ctx):
     return not ctx.env.terminated
 
 
+def same_env(a, b):
+    """equal content (a modular result is a fresh object, so aliasing is stated by content)"""
+    return (a.terminated == b.terminated) and forall_keys('NamedId', lambda k: (known(a, k) == known(b, k)) and (bound(a, k) == bound(b, k)))
+
+
 def da_unchanged(ctx, result):
     """[[result]] ⊆ [[ctx.env]]: the statement introduces nothing that survives it"""
     return implies(live(ctx), env_subset(result, ctx.env))
+
+
+# -- a block is the fold of its statements:  DAblock(b, V) = DA(s_n-1, ... DA(s_0, V))
+#    prefix i = the first i statements;  gen accumulates, term is sticky
+
+SIMPLE_STMTS = ('IndexedAssign', 'AssertStmt', 'EffectStmt', 'PassStmt')
+NO_SURVIVOR_STMTS = ('If1Stmt', 'WhileStmt', 'ForStmt')      # nothing introduced inside survives, incl. the loop target
+
+
+def gen_stmt(s, k):
+    """THE RULE SET: DA(s, V) = TOP if term_stmt(s) else V ∪ gen_stmt(s)"""
+    n = cls_name(s)
+    if n == 'Assign':
+        return binds(s.target, k)
+    if n in SIMPLE_STMTS or n in NO_SURVIVOR_STMTS or n == 'ReturnStmt':
+        return False
+    if n == 'IfStmt':                   # DA(ift) ∩ DA(iff), a terminated arm is absorbing
+        return ite(term_block(s.ift), gen_block(s.iff, k),
+                   ite(term_block(s.iff), gen_block(s.ift, k), gen_block(s.ift, k) and gen_block(s.iff, k)))
+    if n == 'ContextStmt':              # DA(body, V ∪ {t})
+        return binds(s.target, k) or gen_block(s.body, k)
+    return ghost_pred('gen_stmt', s, k)           # a statement of unknown class (element of a block)
+
+
+def term_stmt(s):
+    n = cls_name(s)
+    if n == 'ReturnStmt':
+        return True
+    if n == 'Assign' or n in SIMPLE_STMTS or n in NO_SURVIVOR_STMTS:
+        return False
+    if n == 'IfStmt':
+        return term_block(s.ift) and term_block(s.iff)
+    if n == 'ContextStmt':
+        return term_block(s.body)
+    return ghost_pred('term_stmt', s)
+
+
+def gen_prefix(b, i, k):
+    return ghost_pred('gen_prefix', b, i, k)
+
+
+def term_prefix(b, i):
+    return ghost_pred('term_prefix', b, i)
+
+
+def in_da_stmt(s, v, k):
+    return term_stmt(s) or bound(v, k) or gen_stmt(s, k)
+
+
+def in_da_prefix(b, i, v, k):
+    return term_prefix(b, i) or bound(v, k) or gen_prefix(b, i, k)
+
+
+def block_fold_def(b):
+    """DEFINITION of gen_block/term_block of a block as the fold over b.stmts (assumed as axioms)"""
+    n = seq_len(b.stmts)
+    return {
+        'term0': not term_prefix(b, 0),
+        'gen0': forall_keys('NamedId', lambda k: not gen_prefix(b, 0, k)),
+        'term_step': forall_ints(lambda i: implies(0 <= i and i < n,
+                                 term_prefix(b, i + 1) == (term_prefix(b, i) or term_stmt(seq_at(b.stmts, i))))),
+        'gen_step': forall_ints(lambda i: implies(0 <= i and i < n, forall_keys('NamedId', lambda k:
+                                gen_prefix(b, i + 1, k) == (gen_prefix(b, i, k) or gen_stmt(seq_at(b.stmts, i), k))))),
+        'term_def': term_block(b) == term_prefix(b, n),
+        'gen_def': forall_keys('NamedId', lambda k: gen_block(b, k) == gen_prefix(b, n, k)),
+    }
